@@ -4,5 +4,6 @@ set -e
 cd "$(dirname "$0")"
 /venv/bin/python harness/extract_consts.py >/dev/null
 cd coq
+/venv/bin/python -c "import sys; sys.path.insert(0,\"../harness\"); import common; common.assemble_coqproject()"
 coq_makefile -f _CoqProject -o Makefile.coq
 timeout 3000 make -f Makefile.coq -j16
